@@ -12,34 +12,45 @@
 (***************************************************************************)
 EXTENDS Integers, Sequences, FiniteSets, TLC
 
+\* @type: Seq(Str);
 Anchors == <<"Z", "M31", "M32", "M63", "M64">>
 Rank(a) == CHOOSE i \in DOMAIN Anchors : Anchors[i] = a
 V(a, d) == [a |-> a, d |-> d]
 Z(n) == V("Z", n)
 
+\* @type: ({ a: Str, d: Int }, { a: Str, d: Int }) => Bool;
 Lt(x, y) == Rank(x.a) < Rank(y.a) \/ (x.a = y.a /\ x.d < y.d)
+\* @type: ({ a: Str, d: Int }, { a: Str, d: Int }) => Bool;
 Le(x, y) == Lt(x, y) \/ x = y
+\* @type: ({ a: Str, d: Int }, { a: Str, d: Int }) => Bool;
 Gt(x, y) == Lt(y, x)
 
 (* x + k for a small natural k, in uint64 (wraps at 2^64) *)
+\* @type: ({ a: Str, d: Int }, Int) => { a: Str, d: Int };
 AddU64(x, k) == IF x.a = "M64" /\ x.d + k > 0 THEN Z(x.d + k - 1) ELSE V(x.a, x.d + k)
 (* x + k in uint32 (the compressionLen+8 of loadChunk) *)
+\* @type: ({ a: Str, d: Int }, Int) => { a: Str, d: Int };
 AddU32(x, k) == IF x.a = "M32" /\ x.d + k > 0 THEN Z(x.d + k - 1) ELSE V(x.a, x.d + k)
 (* 2 * x in uint64: wraps for x >= 2^63; stays above the 2 GiB ceiling for every other anchored value *)
+\* @type: ({ a: Str, d: Int }) => { a: Str, d: Int };
 Double(x) == CASE x.a = "Z" -> Z(2 * x.d)
                [] x.a = "M63" /\ x.d > 0 -> Z(2 * (x.d - 1))       \* 2*(2^63-1+d) mod 2^64 = 2d-2
                [] x.a = "M64" -> V("M64", 2 * x.d - 1)             \* 2*(2^64-1+d) mod 2^64 = 2^64-1 + (2d-1)
                [] OTHER -> V("M32", 0)                              \* anything in between: far above 2^31
 (* int64(x): negative for x >= 2^63 *)
+\* @type: ({ a: Str, d: Int }) => Bool;
 IsNegI64(x) == (x.a = "M63" /\ x.d > 0) \/ x.a = "M64"
 Ceiling == V("M31", 0)           \* makeSafe: n < math.MaxInt32
 
+\* @type: ({ a: Str, d: Int }) => { class: Str, alloc: { a: Str, d: Int } };
 Ok(alloc) == [class |-> "ok", alloc |-> alloc]
 Err == [class |-> "error", alloc |-> Z(0)]
 Panic == [class |-> "panic", alloc |-> Z(0)]
 Hang == [class |-> "hang", alloc |-> Z(0)]
+\* @type: ({ a: Str, d: Int }) => { class: Str, alloc: { a: Str, d: Int } };
 Over(alloc) == [class |-> "ok", alloc |-> alloc]
 
+\* @type: ({ a: Str, d: Int }) => { class: Str, alloc: { a: Str, d: Int } };
 MakeSafe(n) == IF Lt(n, Ceiling) THEN Ok(n) ELSE Err
 
 (* --------------------------------------------------------------- rows (as coded now) *)
@@ -102,9 +113,12 @@ Magnitudes(orig, rest) ==
 U32Magnitudes(orig, rest) == {m \in Magnitudes(orig, rest) : Le(m, V("M32", 0))}
 
 FileSize == 1400
+\* @type: ({ class: Str, alloc: { a: Str, d: Int } }, { a: Str, d: Int }) => Bool;
 Safe(r, bound) == r.class \in {"ok", "error"} /\ Le(r.alloc, bound)
 
-VARIABLE row
+VARIABLE
+  \* @type: Str;
+  row
 Rows == {"LexRecordLen", "LexRecordLenLimited", "AttachmentRecordLen", "ChunkCompressionLen", "ChunkUncompressedSizeValidating",
          "ChunkUncompressedSizeLimited", "ParseChunkRecordsLen", "AttachmentStringLen", "ChunkIndexChunkLen", "IndexedBufferSize", "IndexedChunkDataLen", "SeekOffset"}
 Init == row \in Rows
